@@ -240,16 +240,28 @@ def check_truthy_position(ctx, fi, rule='R-IDIOM/truthy-position'):
             continue
         test = node.ast.test
         cands = []
+        direct = []
 
         def collect(t):
             if isinstance(t, ast.Name):
                 cands.append(t)
+            elif isinstance(t, ast.Call) and isinstance(
+                    t.func, ast.Attribute) \
+                    and t.func.attr in _POSITION_CALLS:
+                direct.append(t)
             elif isinstance(t, ast.BoolOp):
                 for v in t.values:
                     collect(v)
             elif isinstance(t, ast.UnaryOp) and isinstance(t.op, ast.Not):
                 collect(t.operand)
         collect(test)
+        for c in direct:
+            n += 1
+            ctx.touch(fi)
+            ctx.fail(rule, f'{fi.qual}:{n - 1}', fi.loc(node.ast),
+                     f'`{unparse(test)[:60]}` tests the position returned '
+                     f'by `.{c.func.attr}(...)` for truth: position 0 (the '
+                     'first element) counts as "not found"')
         for c in cands:
             if is_position(c, node.id):
                 n += 1
